@@ -150,7 +150,8 @@ def metas(rng, n_slices):
     kws = [base]
     for i in range(1, n_slices):
         kw = {k: (dict(v) if isinstance(v, dict) else v) for k, v in base.items()}
-        how = rng.choice(["details", "currency", "loss_details", "currency_as_detail", "detail_vs_loss_detail", "none_vs_empty"])
+        how = rng.choice(["details", "currency", "loss_details", "currency_as_detail", "detail_vs_loss_detail", "none_vs_empty",
+                          "hash_collision", "hash_collision"])
         if how == "details":
             kw["details"] = {**kw.get("details", {}), "state": ["NY", "CA", "TX"][i]}
         elif how == "currency":
@@ -164,10 +165,19 @@ def metas(rng, n_slices):
         elif how == "detail_vs_loss_detail":
             kws[0] = {**kws[0], "details": {**kws[0].get("details", {}), "kk": "v"}} if i == 1 else kws[0]
             kw["loss_details"] = {"kk": "v", "i": i}
+        elif how == "hash_collision":               # HARDENING M: hash(-1) == hash(-2), hash(0) == hash(2**61 - 1)
+            where = rng.choice(["details", "loss_details", "limit"])
+            if where == "limit":
+                kws[0] = {**kws[0], "per_occurrence_limit": -1.0} if i == 1 and "per_occurrence_limit" not in kws[0] else kws[0]
+                kw["per_occurrence_limit"] = [-2.0, 2**61 - 1][i - 1] if kws[0].get("per_occurrence_limit") == -1.0 else [-2.0, -1.0][i - 1]
+            else:
+                if i == 1:
+                    kws[0] = {**kws[0], where: {**kws[0].get(where, {}), "h": -1, "z": 0}}
+                kw[where] = {**kws[0].get(where, {}), "h": [-2, -1][i - 1], "z": [0, 2**61 - 1][i - 1]}
         else:
             kw["details"] = {**kw.get("details", {}), "opt": [None, ""][i - 1]}
         kws.append(kw)
-    spell = rng.random() < 0.4
+    spell = rng.random() < 0.4 and not any("per_occurrence_limit" in kw for kw in kws)
     out = []
     for kw in kws:
         if not spell:
@@ -214,8 +224,8 @@ def coords(rng, shape, P, L, res, feb=None):
     """list of (ps, pe, [evals]) for a complete rectangle / upper-left triangle / single row, column, diagonal.
     feb = a year: periods are laid out so that a period end / evaluation date is the last day of February of it."""
     y0, m0 = rng.randint(2000, 2020), rng.choice([1, 4, 7, 10]) if res != 12 else 1
-    if rng.random() < 0.08:
-        y0 = rng.randint(2180, 2235)             # far future
+    if rng.random() < 0.12:                      # HARDENING N: far future, past the datetime64[ns] range
+        y0 = rng.choice([rng.randint(2180, 2235), 2262, 2300, 2999, 9000])
     if feb is not None:
         # a period ending in February of `feb` sits at index j: start = Feb - (j+1)*res + 1 months
         j = rng.randint(0, max(0, min(P, 3) - 1))
@@ -298,7 +308,8 @@ def gen_sample_triangle(rng, positive=False):
     restated = (not positive) and rng.random() < 0.1
     # prediction-style triangles: some cells are OBSERVED (scalars in the sampled fields), the others carry
     # samples; "first": the first cell in triangle order is observed, "some": random cells are
-    mixed = "no" if positive else rng.choice(["no", "no", "first", "first", "some", "last", "last"])
+    mixed = "no" if positive else rng.choice(["no", "no", "first", "first", "some", "last", "last",
+                                              "first_d", "first_d", "middle_d", "last_d"])
     first_key = None
     for m in metas(rng, n_slices):
         for ps, pe, evs in rows:
@@ -339,7 +350,28 @@ def gen_sample_triangle(rng, positive=False):
                                                         for k_, v_ in vals.items()}, metadata=rng.choice(m)))
     if mixed != "no" and len(cells) > 1:
         order = sorted(range(len(cells)), key=lambda j: cells[j])
-        if mixed == "last":
+        if mixed.endswith("_d"):
+            # FIELD-DISJOINT observed cells: they do not carry the sampled fields at all, only a scalar premium
+            # (every field then has ONE size throughout the triangle).  first_d: the earliest cell(s) in sort order
+            # or the whole first-sorting slice; middle_d: cells in the middle; last_d: the trailing ones.
+            if mixed == "first_d":
+                first_meta = cells[order[0]].metadata
+                observed = {j for j in order if cells[j].metadata == first_meta}
+                if len(observed) == len(cells) or rng.random() < 0.4:
+                    observed = set(order[:rng.randint(1, max(1, len(cells) // 2))])
+                observed -= {order[-1]}
+            elif mixed == "middle_d":
+                observed = set(order[1:-1][:rng.randint(1, max(1, len(cells) // 2))])
+            else:
+                observed = set(order[-rng.randint(1, max(1, len(cells) // 2)):]) - {order[0]}
+            for j in observed:
+                c = cells[j]
+                keep = {f: v for f, v in c.values.items() if not (isinstance(v, np.ndarray) and v.size > 1)}
+                keep.setdefault("earned_premium", c.values.get("earned_premium", 123.5)
+                                if not isinstance(c.values.get("earned_premium"), np.ndarray) else 123.5)
+                cells[j] = c.replace(values=keep)
+            observed = set()
+        elif mixed == "last":
             # scalar-only cells come LAST in sort order: the whole last-sorting slice is observed-only (multi
             # slice), or the trailing cell(s) of the only slice
             last_meta = cells[order[-1]].metadata
